@@ -159,6 +159,27 @@ theorem C01_canonRec_idempotent (ci : Bool) (r : Rec) : canonRec ci (canonRec ci
   rw [h]
   simp [Option.map_map, Function.comp_def]
 
+/-- the model's `normalize` satisfies the monitor the harness evaluates on the REAL `normalize_for_identity` output
+(volatile fields erased in identity streams — yielded turn records included — logical content untouched) -/
+theorem C01_normalize_ok (ci : Bool) (r : Rec) : normOkB ci r (normalize ci r) = true := by
+  unfold normOkB normalize
+  cases ci <;> simp only [Bool.not_true, Bool.not_false, Bool.false_eq_true, if_true, if_false, Bool.true_and, Bool.false_and]
+  · simp
+  · by_cases hi : r.stream.identity = true
+    · by_cases ht : (r.stream == Stream.turn) = true
+      · by_cases hy : (r.yielded == some true) = true <;> simp [hi, ht, hy]
+      · simp [hi, ht]
+    · simp [hi]
+
+/-- what the monitor demands is exactly volatility: two records that differ only in `ms`, `now` and the values of
+`durations_ms` have the same normal form in an identity stream under CI -/
+theorem C01_normalize_erases_volatile (r : Rec) (ms ms' : Int) (nw nw' : Option Nat)
+    (d d' : List Int) (hl : d.length = d'.length) (ht : r.stream = Stream.turn) :
+    normalize true { r with ms := some ms, now := nw, durs := some d }
+      = normalize true { r with ms := some ms', now := nw', durs := some d' } := by
+  unfold normalize
+  by_cases hy : (r.yielded == some true) = true <;> simp [ht, hy, hl, Stream.identity]
+
 /-! ### (S) clock non-interference of the `run_turn` skeleton -/
 
 /-- ONE TURN: two clock contributions that induce the same boundary decisions (time-based yield reasons, TTL
